@@ -73,6 +73,10 @@ class SymSlice:
     """lst[start:stop] of a SymList, kept lazy so that tuple unpacking can check the length"""
     def __init__(self, arr, start, stop): self.arr, self.start, self.stop = arr, start, stop
 
+class SymObjList:
+    """a list of objects of symbolic length n; element i is produced by factory(eng, i) (a generic element: the factory may fork on its kind)"""
+    def __init__(self, n, factory): self.n, self.factory = n, factory
+
 class SymRange:
     def __init__(self, start, stop, step): self.start, self.stop, self.step = start, stop, step
 
@@ -231,7 +235,7 @@ def fmod(a, b):
 class Path:
     def __init__(self, decisions):
         self.decisions = list(decisions); self.pos = 0
-        self.pc = []; self.events = []; self.notes = []
+        self.pc = []; self.events = []; self.notes = []; self.captures = []
 
 class Engine:
     def __init__(self, timeout_ms=20000):
@@ -543,6 +547,8 @@ class Engine:
                     opaque = True; continue
                 if part.format_spec is None and part.conversion == -1 and (isinstance(v, str) or is_symstr(v) or (isinstance(v, int) and not isinstance(v, bool))):
                     parts.append(v if not isinstance(v, int) else str(v))
+                elif part.format_spec is None and part.conversion == -1 and is_symint(v) and getattr(self, "fstring_ints", False):
+                    parts.append(z3.IntToStr(v))       # exact for non-negative ints (the counters it is used for)
                 else: opaque = True
             else:
                 parts.append(part.value)
@@ -786,6 +792,20 @@ class Engine:
         v = self.eval(n.value, env, mod)
         return self.getattr(v, n.attr, n)
     def getattr(self, v, attr, n=None):
+        if isinstance(v, Lazy):
+            # the BaseDeferred surface of the abstraction (DESIGN section 4): an unsettled deferred whose final value is v.final
+            if attr == "typ": return BUILTINS["int"] if v.typ == "int" else BUILTINS["bytes"] if v.typ == "bytes" else Opaque("typ")
+            if attr == "is_awaiting": return False
+            if attr == "get_current_best_estimate": return Builtin("Lazy.get_current_best_estimate", lambda eng, _v=v: _v)
+            if attr == "wait": return Builtin("Lazy.wait", lambda eng, _v=v: _v.final)
+            if attr == "length":
+                def ln(eng, _v=v):
+                    if _v.typ != "bytes": raise PyRaise(Exc("TypeError"))
+                    a = announced_len(_v)
+                    return a if _v.size is not None else Lazy(a, "int")
+                return Builtin("Lazy.length", ln)
+            if attr in ("size",) and v.size is not None: return v.size
+            raise Unsupported(f"Lazy.{attr}")
         if isinstance(v, tuple) and v and isinstance(v[0], str) and v[0] == "module":
             if (v[1], attr) in MODULE_OVERRIDES: return MODULE_OVERRIDES[(v[1], attr)]
             m = self.load_module(v[1]); return self.resolve_global(m, attr)
@@ -823,7 +843,7 @@ class Engine:
             zs = z3.StringVal(v) if isinstance(v, str) else v
             conc = getattr(v, attr, None) if isinstance(v, str) else None
             def strmeth(eng, *a, _s=zs, _attr=attr, _conc=conc):
-                if _conc is not None and not any(is_sym(x) for x in a): return _conc(*a)
+                if _conc is not None and _attr != "encode" and not any(is_sym(x) for x in a): return _conc(*a)
                 return symstr_method(eng, _s, _attr, a)
             return Builtin("str." + attr, strmeth)
         if isinstance(v, SymBits):
@@ -877,6 +897,16 @@ class Engine:
             hi = self.eval(n.slice.upper, env, mod) if n.slice.upper else None
             if n.slice.step is not None: raise Unsupported("slice step")
             return self.sym_slice(v, lo, hi)
+        if isinstance(v, SymSplit):
+            idx = self.eval(n.slice, env, mod)
+            sep = z3.StringVal(v.sep); L = z3.Length(v.s)
+            if idx == -1:
+                k = z3.LastIndexOf(v.s, sep)
+                return z3.SubString(v.s, k + 1, L)
+            if idx == 0:
+                k = z3.IndexOf(v.s, sep, 0)
+                return z3.If(k >= 0, z3.SubString(v.s, 0, k), v.s)
+            raise Unsupported("index %r of a symbolic split" % (idx,))
         if is_symstr(v) or isinstance(v, SymList):
             idx = self.undyn(self.eval(n.slice, env, mod))
             ln = z3.Length(v) if is_symstr(v) else v.n
@@ -1084,9 +1114,53 @@ class Engine:
     # Deferred[T](fn) / SizedDeferred[T](size, fn): contract of BaseDeferred.construct --
     # evaluates fn symbolically once (its obligations are those of the enclosing function) and returns
     # either the raw result (eager) or a Lazy wrapper (postponed) -- both continuations are explored.
+    def free_captures(self, fn):
+        """(env, name, current value) of every variable a deferred body reads from an enclosing *function* scope"""
+        if not isinstance(fn, Func): return []
+        node = fn.node
+        body = node.body if isinstance(node.body, list) else [node.body]
+        loads, stores = set(), set()
+        for st in body:
+            for n in ast.walk(st):
+                if isinstance(n, ast.Name):
+                    (loads if isinstance(n.ctx, ast.Load) else stores).add(n.id)
+        if not isinstance(node, ast.Lambda):
+            for p in node.args.args: stores.add(p.arg)
+        out = []
+        for name in sorted(loads - stores):
+            e = fn.env
+            while e is not None and e.parent is not None:        # stop before the module env
+                if name in e.vars:
+                    out.append((e, name, e.vars[name])); break
+                e = e.parent
+        return out
+
+    def check_sites(self):
+        """site obligation of every SizedDeferred constructed on this path (C02): the announced size is the real length, or an error was reported"""
+        for note in self.path.notes:
+            if note[0] == "sized" and not (len(note) > 3 and note[3]):
+                _, size, value = note[:3]
+                v = value.final if isinstance(value, Lazy) else value
+                if isinstance(v, ByteBuf): v = v.v
+                try: ln = slen(v)
+                except Unsupported: continue
+                conc = any(e[0] == "error" for e in self.path.events)
+                syms = [e[2] for e in self.path.events if e[0] == "sym-error"]
+                self.prove("sized-site:announced-size==length-of-the-final-bytes-or-an-error-was-reported", z3.Or([z3.BoolVal(conc)] + syms + [ln == size]) if (is_sym(ln) or is_sym(size) or syms) else (conc or ln == size))
+        self.path.notes = [n for n in self.path.notes if n[0] != "sized"]
+
+    def check_captures(self):
+        for qual, line, caps in self.path.captures:
+            changed = [name for (env_, name, val) in caps if env_.vars.get(name) is not val and not _same_value(env_.vars.get(name), val)]
+            if changed:
+                self.prove("deferred-body-%s@%d-reads-no-variable-that-is-reassigned-after-its-construction(late binding): %s" % (qual, line, ",".join(changed)), False)
+        self.path.captures = []
+
     def make_deferred(self, cls, typ, *a):
         if cls.name == "SizedDeferred": size, fn = a
         else: size, fn = None, a[0]
+        # the abstraction evaluates the body now; the real body may run later: what it reads from enclosing scopes must not change
+        self.path.captures.append((getattr(fn, "qualname", "?"), getattr(getattr(fn, "node", None), "lineno", 0), self.free_captures(fn)))
         value = self.call(fn, [], {})
         typ = getattr(typ, "pytype", typ)
         tname = "int" if typ is int else "bytes" if typ is bytes else "obj"
@@ -1113,6 +1187,10 @@ class Engine:
     def s_Break(self, st, env, mod): raise BreakSig()
     def s_Continue(self, st, env, mod): raise ContinueSig()
     def s_Nonlocal(self, st, env, mod): env.nonlocals.update(st.names)
+    def s_ImportFrom(self, st, env, mod):
+        for a in st.names:
+            if st.module is None: env.assign(a.asname or a.name, ("module", a.name))
+            else: env.assign(a.asname or a.name, self.resolve_global(self.load_module(st.module), a.name))
     def s_FunctionDef(self, st, env, mod):
         f = Func(st, env, mod, st.name); f.owner = getattr(env, "owner_class", None)
         env.assign(st.name, f)
@@ -1171,7 +1249,7 @@ class Engine:
         raise PyRaise(e)
     def s_For(self, st, env, mod):
         it = self.eval(st.iter, env, mod)
-        if isinstance(it, (SymList, SymRange)) or is_symstr(it) or is_symbytes(it):
+        if isinstance(it, (SymList, SymRange, SymObjList)) or is_symstr(it) or is_symbytes(it):
             spec = self.loop_spec_for(st)
             if spec is None: raise Unsupported("for loop over a symbolic-length iterable without a loop contract: %s:%d" % (mod["name"], st.lineno))
             return self.cut_loop(spec, st, env, mod, it)
@@ -1217,7 +1295,7 @@ class Engine:
         return self.loop_specs.get(k) if k else None
 
     def iter_len(self, it):
-        if isinstance(it, SymList): return it.n
+        if isinstance(it, (SymList, SymObjList)): return it.n
         if isinstance(it, SymRange):
             span = it.stop - it.start
             if not (isinstance(it.step, int) and it.step > 0): raise Unsupported("symbolic range step")
@@ -1226,6 +1304,7 @@ class Engine:
         return slen(it)
     def iter_item(self, it, i):
         if isinstance(it, SymList): return z3.Select(it.arr, i)
+        if isinstance(it, SymObjList): return it.factory(self, i)
         if isinstance(it, SymRange): return it.start + it.step * i
         if is_symstr(it): return z3.SubString(it, i, 1)
         return it[i]
@@ -1258,6 +1337,23 @@ class Engine:
             except ContinueSig: pass
             except BreakSig: return
             if it is not None: env.vars[idx] = i + 1
+            # a deferred body constructed in this iteration may run after later iterations: it must not read loop-carried variables
+            carried = set()
+            def stores(node):
+                for c in ast.iter_child_nodes(node):
+                    if isinstance(c, (ast.FunctionDef, ast.Lambda, ast.ClassDef)):
+                        for sub in ast.walk(c):
+                            if isinstance(sub, ast.Nonlocal): carried.update(sub.names)
+                        continue
+                    if isinstance(c, ast.Name) and isinstance(c.ctx, ast.Store): carried.add(c.id)
+                    stores(c)
+            stores(st)
+            for qual, line, caps in self.path.captures:
+                late = sorted(name for (env_, name, val) in caps if env_ is env and name in carried)
+                if late:
+                    self.prove("deferred-body-%s@%d-reads-no-loop-carried-variable(late binding across iterations): %s" % (qual, line, ",".join(late)), False)
+            self.check_captures()
+            self.check_sites()
             for lab, c in spec.inv(self, env): self.prove("%s:invariant-preserved:%s" % (label, lab), c)
             if v0 is not None:
                 v1 = spec.variant(self, env)
@@ -1347,8 +1443,10 @@ def b_isinstance(eng, v, cls):
             continue
         if isinstance(c, ClassV):
             if isinstance(v, Lazy):
-                if c.name in ("BaseDeferred",): return True
-                if c.name in ("Deferred", "SizedDeferred", "LinearPolynomial", "Concatenator", "Promise"): raise Unsupported("isinstance on Lazy subclass")
+                if c.name in ("BaseDeferred", "Deferred"): return True
+                if c.name == "SizedDeferred":
+                    if v.size is not None: return True
+                    continue
                 continue
             if isinstance(v, Obj) and isinstance(v.cls, ClassV) and any(c is k for k in v.cls.mro()): return True
             if isinstance(v, Obj) and isinstance(v.cls, str) and v.cls == "opaque": raise Unsupported(f"isinstance of opaque {v} vs {c.name}")
@@ -1520,6 +1618,12 @@ def b_type_hints(eng, fn):
         out["return"] = eng.eval(fn.node.returns, fn.env, fn.module)
     return out
 BUILTINS["typing.get_type_hints"] = Builtin("typing.get_type_hints", b_type_hints)
+def b_defaultdict(eng, factory=None):
+    import collections
+    py = {"int": int, "dict": dict, "list": list}.get(getattr(factory, "name", None))
+    if factory is not None and py is None: raise Unsupported("defaultdict factory")
+    return collections.defaultdict(py)
+BUILTINS["collections.defaultdict"] = Builtin("collections.defaultdict", b_defaultdict)
 BUILTINS["NotImplemented"] = NotImplemented
 BUILTINS["None"] = None
 
@@ -1531,7 +1635,11 @@ class ByteBuf:
 
 strupper = z3.Function("strupper", z3.StringSort(), z3.StringSort())
 strlower = z3.Function("strlower", z3.StringSort(), z3.StringSort())
-SYMSTR_METHODS = {"upper", "lower", "index", "find", "endswith", "startswith", "encode", "ljust"}
+SYMSTR_METHODS = {"upper", "lower", "index", "find", "endswith", "startswith", "encode", "ljust", "split", "rpartition", "partition"}
+
+class SymSplit:
+    """s.split(sep) of a symbolic string: only the first and the last piece are modelled"""
+    def __init__(self, s, sep): self.s, self.sep = s, sep
 ENCODERS = {}
 
 def zstr(v): return z3.StringVal(v) if isinstance(v, str) else v
@@ -1617,6 +1725,17 @@ def symstr_method(eng, s, attr, a):
         return r
     if attr == "endswith": return z3.SuffixOf(zstr(a[0]), s)
     if attr == "startswith": return z3.PrefixOf(zstr(a[0]), s)
+    if attr == "split":
+        if len(a) != 1 or not isinstance(a[0], str) or len(a[0]) != 1: raise Unsupported("str.split form")
+        return SymSplit(s, a[0])
+    if attr in ("partition", "rpartition"):
+        if len(a) != 1 or not isinstance(a[0], str) or not a[0]: raise Unsupported("str.partition form")
+        sep = z3.StringVal(a[0]); L = z3.Length(s)
+        k = z3.IndexOf(s, sep, 0) if attr == "partition" else z3.LastIndexOf(s, sep)
+        found = k >= 0
+        if attr == "partition":
+            return (z3.If(found, z3.SubString(s, 0, k), s), z3.If(found, sep, z3.StringVal("")), z3.If(found, z3.SubString(s, k + len(a[0]), L), z3.StringVal("")))
+        return (z3.If(found, z3.SubString(s, 0, k), z3.StringVal("")), z3.If(found, sep, z3.StringVal("")), z3.If(found, z3.SubString(s, k + len(a[0]), L), s))
     if attr == "ljust":
         n, fill = a[0], (a[1] if len(a) > 1 else " ")
         if not isinstance(n, int) or n > 32 or not isinstance(fill, str): raise Unsupported("ljust with symbolic width")
@@ -1726,6 +1845,15 @@ def find_func(eng, modname, path):
         v = v.lookup(p)
     return v
 
+def _same_value(a, b):
+    try:
+        if isinstance(a, (int, str, bytes, bool, type(None))) and isinstance(b, (int, str, bytes, bool, type(None))): return a == b
+        if is_sym(a) and is_sym(b): return a.eq(b)
+    except Exception:
+        pass
+    return False
+
+
 def verify(eng, name, run, post, max_paths=5000, func=None):
     """Explore every path of run(eng) (which calls the real function on symbolic inputs; may raise
     PyRaise) and let post(eng, outcome) issue eng.prove(...) obligations.  Returns a summary dict; an
@@ -1748,6 +1876,8 @@ def verify(eng, name, run, post, max_paths=5000, func=None):
                 except PyRaise as pr:
                     outcome = ("raise", pr.exc)
                 eng.outcome = outcome
+                eng.check_captures()
+                eng.check_sites()
                 post(eng, outcome)
             except PathEnd:
                 npaths -= 1; continue
